@@ -4,7 +4,7 @@ import re
 
 MODEL_VOS = ["theories/Base.vo", "theories/Mapping.vo", "theories/Spec.vo", "theories/Mapper.vo",
              "theories/CacheWriter.vo", "theories/CacheReader.vo", "theories/Stacktrace.vo", "theories/Java.vo",
-             "theories/Metadata.vo", "theories/Sink.vo", "theories/Uuid.vo", "theories/Layout.vo"]
+             "theories/Metadata.vo", "theories/Sink.vo", "theories/Uuid.vo", "theories/Layout.vo", "theories/Domain.vo"]
 
 TRUSTED_BASE = [
     "Coq 8.16.1 kernel (coqc), vm_compute for finite checks and witnesses; no native_compute",
@@ -95,6 +95,15 @@ def check_case(prop, case, il, ml, ctx):
     mode = PROPS[prop].get("oracle", "spec")
     if ml.startswith("MODEL-") or ml.startswith("UNKNOWN-OP"):
         return [f"model driver: {ml}"]
+    if op == "DOM":
+        ctx["stats"]["cur_dom"] = (ml == "dom=1")
+        _kind(ctx, "domain:" + ("representable" if ml == "dom=1" else "outside") + ("" if il == ml else "/generator-disagrees"))
+        return []
+    if mode == "spec" and PROPS[prop].get("needs_domain", True) and ctx["stats"].get("cur_dom") is False \
+            and op in ("K", "T", "L", "P", "S", "Y", "G", "W"):
+        # the cache theorems (and hence cache = mapper = spec) are stated on the representable domain only
+        _kind(ctx, "skipped:outside-domain")
+        return []
     if "PANIC" in (il.replace("test=PANIC", "") if mode == "model" else il):
         probs.append("implementation panicked")
         _kind(ctx, "PANIC")
@@ -182,6 +191,11 @@ def check_case(prop, case, il, ml, ctx):
                 probs.append("a non-retryable sink failure was consumed but write reported success")
         _nontrivial(ctx, case, I.get("r") != "ok" or "max=0" not in case)
         _kind(ctx, "Z:" + I.get("r", "?"))
+    elif op == "US":
+        if il != ml:
+            probs.append(f"US: section uuid {il[:120]!r} but the bytes of the section give {ml[:120]!r}")
+        _nontrivial(ctx, case, True)
+        _kind(ctx, "US")
     elif op == "U":
         if il != ml:
             probs.append(f"U: implementation {il!r} independent SHA-1 computation {ml!r}")
@@ -251,7 +265,22 @@ def classify(prop, case, why):
 
 def extra_checks(prop, tier, seed, harness, sh):
     """property specific probes beyond the case protocol: returns (failures, lines, stats)"""
-    return [], [], {}
+    failures, lines, stats = [], [], {}
+    if prop == "C13":
+        # stack depth of the recursive typed API (runtime behaviour outside the Gallina model)
+        for depth, must_pass in ((1000, True), (200000, False)):
+            rc, out = sh([harness, "deep", str(depth)], timeout=600)
+            ok = rc == 0 and "dropped" in out and "same_as_text=true" in out
+            lines.append(f"deep cause chain n={depth}: {'ok' if ok else 'process died / wrong (status %d)' % rc}")
+            stats[f"deep{depth}:{'ok' if ok else 'died'}"] = 1
+            if not ok:
+                if must_pass:
+                    failures.append(("deep", f"typed remapping of a cause chain of depth {depth} failed (status {rc}): {out[-200:]}",
+                                     f"vharness deep {depth}", ""))
+                else:
+                    failures.append(("deep", f"stack overflow in the recursive typed API on a cause chain of depth {depth} "
+                                     f"(process status {rc})", f"vharness deep {depth}", ""))
+    return failures, lines, stats
 
 
 NOT_APPLICABLE = {}
@@ -375,7 +404,7 @@ PROPS = {
              "non-empty answer",
              "all clauses proved for lookups; text/typed trace agreement follows because both implementations "
              "instantiate one loop with lookups proved equal (that each Rust copy is this loop is the correspondence)"),
-    "C09": P(["C09_struct_wf", "C09_classes_sorted", "C09_ranges_tile", "C09_strings_readable", "C09_length"],
+    "C09": P(["C09_struct_wf", "C09_classes_sorted", "C09_ranges_tile", "C09_strings_readable", "C09_length", "C09_decoder_accepts", "C09_self_test_accepts"],
              "Theorems about the written structure (whose bytes read back to exactly it): class entries strictly sorted "
              "by readable obfuscated name; member and by-params ranges tile their sections in class order; every "
              "referenced offset is a readable string or the sentinel where absence is allowed; words fit 32 bits and "
@@ -385,8 +414,8 @@ PROPS = {
              "representable grammar mappings (every 25th up to 120 classes; classes without members, members without "
              "by-params entries, shared strings, non-ASCII, names > 127 bytes) and corpus files; non-trivial = at least "
              "one class",
-             "structure-level invariants proved; layout_ok (ser (write_struct rs)) = true as a theorem about the "
-             "independent decoder is work in progress (the decoder is evaluated on every written file instead)",
+             "all clauses proved, including: the independent decoder layout_ok accepts the bytes of every written file, "
+             "and the model of the library's self-test accepts it",
              validate_bytes=True, gen="C09"),
     "C12": P(["C12_search_index_in_bounds", "C12_search_terminates", "C12_class_is_buffer_slice",
               "C12_method_is_buffer_slice", "C12_frames_are_buffer_slices", "C12_params_frames_are_buffer_slices"],
